@@ -471,24 +471,34 @@ func (s *MemoryStore) evictionsNeededLocked(incoming int) int {
 }
 
 // oldestQueuedIDsLocked returns up to n queued item IDs in eviction order
-// without modifying the store.
+// (smallest received_at first, ties by insertion order, matching the SQLite
+// and Postgres backends) without modifying the store.
 func (s *MemoryStore) oldestQueuedIDsLocked(n int) []string {
 	if n <= 0 {
 		return nil
 	}
-	out := make([]string, 0, n)
+	queued := make([]*Envelope, 0)
+	seen := make(map[string]struct{})
 	for _, id := range s.order {
-		if len(out) >= n {
-			break
-		}
 		env := s.items[id]
 		if env == nil || env.State != StateQueued {
 			continue
 		}
-		if containsID(out, id) {
+		if _, dup := seen[id]; dup {
 			continue
 		}
-		out = append(out, id)
+		seen[id] = struct{}{}
+		queued = append(queued, env)
+	}
+	sort.SliceStable(queued, func(i, j int) bool {
+		return queued[i].ReceivedAt.Before(queued[j].ReceivedAt)
+	})
+	if len(queued) > n {
+		queued = queued[:n]
+	}
+	out := make([]string, 0, len(queued))
+	for _, env := range queued {
+		out = append(out, env.ID)
 	}
 	return out
 }
